@@ -65,15 +65,21 @@ def main():
     valid = rc1 != 0 and rc0 == 0 and (notests or not regress)
     meta["valid"] = valid
     print(f"{prop}-{x}: demo with={rc1} without={rc0} regressions={regress} valid={valid}")
-    # run checks against /repo with the patch
-    rc, out = sh(f"git -C /repo apply {patch}")
-    if rc != 0:
-        print("patch does not apply to /repo:", out)
-        return 1
+    # run the checks on a scratch copy of /repo's sources with the patch applied (never on /repo itself, so that several
+    # validations can run side by side and the evidence files keep describing /repo)
+    scratch = f"/tmp/scratch/sc_{rnd or 'r1'}_{prop}_{x}"
+    shutil.rmtree(scratch, ignore_errors=True)
+    os.makedirs(scratch)
     try:
-        rc, out = sh("./nv all", cwd=VERIF)
+        sh(f"cp -r /repo/src {scratch}/src && cp -r /repo/docs {scratch}/docs")
+        rc, out = sh(f"git apply -p1 {patch}", cwd=scratch)
+        if rc != 0:
+            print("patch does not apply to /repo's sources:", out)
+            return 1
+        rc, out = sh(f"./nv all --repo {scratch}", cwd=VERIF)
+        out = out.replace(scratch + "/", "")
     finally:
-        sh("git -C /repo checkout -- .")
+        shutil.rmtree(scratch, ignore_errors=True)
     fired = []
     errors = []
     cur = None
@@ -101,7 +107,7 @@ def main():
     meta["ran"] = [
         f"git apply seed_{x}.patch in scratch worktree; PYTHONPATH=<wt>/src /venv/bin/python demo_{x}.py (exit {rc1}); "
         f"pytest -n 16 --no-cov (baseline regressions: {regress}); git checkout; demo again (exit {rc0})",
-        "git -C /repo apply patch.diff; ./nv all; git -C /repo checkout -- .",
+        "patch.diff applied to a scratch copy of /repo's sources; ./nv all --repo <copy>; copy removed",
     ]
     with open(os.path.join(d, "meta.json"), "w") as fh:
         json.dump(meta, fh, indent=1)
